@@ -186,6 +186,7 @@ impl Driver {
 				})
 			}
 			Op::SetHook(hid) => set_hook(&job, &world, *hid),
+			Op::SetAsyncHook(delay) => set_async_hook(&job, &world, *delay),
 			Op::SetErrH(eid) => set_errh(&job, &world, *eid),
 			Op::UnsetErrH => job.unset_error_handler(),
 		};
@@ -263,6 +264,18 @@ fn set_hook(job: &Job, world: &Arc<World>, hid: u32) -> Ticket {
 		w.log(Ev::Hook { hook: hid, cur: state_tag(ctx.current), prev: ctx.previous.map_or("-".into(), state_tag) });
 		cmd.command_mut().env("VERIF_HOOK", hid.to_string());
 		cmd.wrap(SimWrap { world: w.clone(), hook_env: None });
+	})
+}
+
+fn set_async_hook(job: &Job, world: &Arc<World>, delay_ms: u64) -> Ticket {
+	let w = world.clone();
+	job.set_spawn_async_hook(move |cmd, ctx| {
+		w.log(Ev::Hook { hook: 1000 + delay_ms as u32, cur: state_tag(ctx.current), prev: ctx.previous.map_or("-".into(), state_tag) });
+		cmd.command_mut().env("VERIF_HOOK", (1000 + delay_ms).to_string());
+		cmd.wrap(SimWrap { world: w.clone(), hook_env: None });
+		Box::new(async move {
+			tokio::time::sleep(ms(delay_ms)).await;
+		})
 	})
 }
 
